@@ -649,6 +649,14 @@ def hEdsReconcile (inp out : Json) : Except String Findings := do
   let fs := diff fs "specUpdate" (match o.specHash with | some h => s!"{h} [{smapStr o.specAnn}]" | none => "-")
               (match m.specUpdate with | some (h, a) => s!"{h} [{smapStr a}]" | none => "-")
   -- ---- specification clauses on the implementation's writes
+  -- a reconcile that decided from a stale read of the ExtendedDaemonSet must not overwrite what was
+  -- stored meanwhile (writes are guarded by resourceVersion: C11's mechanism); in particular the canary
+  -- nodes selected earlier are kept (C15)
+  let staleRead : Bool := (inp.getObjValAs? Bool "staleRead").toOption.getD false
+  let storedChanged : Bool := (out.getObjValAs? Bool "storedChanged").toOption.getD false
+  let storedCanaryChanged : Bool := (out.getObjValAs? Bool "storedCanaryChanged").toOption.getD false
+  let fs := spec fs "C11.stale-write-refused" (!staleRead || !storedChanged)
+  let fs := spec fs "C15.selection-kept-on-stale-read" (!staleRead || !storedCanaryChanged)
   let own := ownErs d all
   let fs := spec fs "C12.writes-owned" o.foreign.isEmpty
   -- C13: create only when no own replica set matches the template; faithful; named for this EDS
@@ -753,6 +761,8 @@ structure ErsOutJ where
   order : List String
   foreign : List String
   appliedPods : Nat
+  storedReconcileError : Option String := none
+  storedCleanupDone : Option String := none
   deriving FromJson
 
 def hErsReconcile (inp out : Json) : Except String Findings := do
@@ -795,6 +805,13 @@ def hErsReconcile (inp out : Json) : Except String Findings := do
   let fs := if closeEnough then fs else diff fs "requeueAfter" o.requeueAfter m.requeueAfter
   -- ---- specification clauses on the implementation's API calls
   let fs := spec fs "C12.writes-owned" o.foreign.isEmpty
+  -- C17 "every error of a pod creation or deletion is reflected in the error the sync reports and in the
+  -- ReconcileError / PodsCleanupDone condition rather than being lost": when a pod write of this sync
+  -- failed, Reconcile returns an error, or the STORED replica set carries ReconcileError=True or
+  -- PodsCleanupDone=False — also when the status write itself met a conflict
+  let podWriteFailed : Bool := (inp.getObjValAs? Bool "podWriteFailed").toOption.getD false
+  let fs := spec fs "C17.sync-reports-error"
+    (!podWriteFailed || o.kind == "err" || o.storedReconcileError == some "True" || o.storedCleanupDone == some "False")
   -- C18 "only valid settings influence pods": settings that are not valid (in error, not yet
   -- reconciled) must be inert — the sync on the store WITHOUT them decides the same early error and
   -- the same set of creations (the model ignores them by construction: theorem C18_only_valid_used)
